@@ -7,6 +7,7 @@ import (
 	"bytes"
 	"fmt"
 	"os"
+	"path"
 	"strconv"
 	"strings"
 	"time"
@@ -147,6 +148,28 @@ func climbs(names []string, depth int) bool {
 			default:
 				d++
 			}
+		}
+	}
+	return false
+}
+
+// embedsHostPath reports whether the name holds, from some element boundary
+// on, a path that begins with one of the jail's top-level names and that - read
+// as a path of the server's own file system instead of relative to the root
+// or to a directory below it - lexically designates something outside the
+// exported root ("/up/export/../canary", "a/../up/canary", "up/export/..").
+func embedsHostPath(name string) bool {
+	for i := 0; i < len(name); i++ {
+		if i > 0 && name[i-1] != '/' {
+			continue
+		}
+		el, _, _ := strings.Cut(name[i:], "/")
+		if el != upName && el != "top-canary" {
+			continue
+		}
+		c := path.Clean("/" + name[i:])
+		if c != rootInJail && !strings.HasPrefix(c, rootInJail+"/") {
+			return true
 		}
 	}
 	return false
@@ -743,13 +766,22 @@ func (s *sess) probe(i int, p *Probe) error {
 	}
 
 	// evidence
-	host := false
+	host, embeds := false, false
 	for _, n := range p.Names {
 		if hostile(n) {
 			host = true
 		}
+		if embedsHostPath(n) {
+			embeds = true
+		}
 	}
-	if host && (success || probeClimbs(p, viaPrev)) {
+	if p.Vec == "walk" && embedsHostPath(strings.Join(p.Names, "/")) {
+		embeds = true // spelt as separate elements
+	}
+	if embeds {
+		hx.Label("name embeds a host path leading outside the root")
+	}
+	if host && (success || embeds || probeClimbs(p, viaPrev)) {
 		s.nontrivial = true
 		hx.NonTrivial(p.Vec, strings.Join(p.Names, "\x00"), p.Depth, p.Kind, success)
 	}
